@@ -460,6 +460,35 @@ def shared_destination_on_failure(prog, res):
     res.need(R, 4)
 
 
+def flat_directory_collisions(prog, res):
+    """T3: in a flat output directory (--output-dir-flat) sources of one base name share one destination, each overwriting the
+    previous result.  With --rm that loses every source but the last, so the collision verdict (FIO_checkFilenameCollisions,
+    tested in a branch) must be taken BEFORE the first source is processed, and its positive edge must not reach the
+    per-source stage."""
+    R = "T3.flat-directory-collisions-refused-before-removal"
+    for name, stage in (("FIO_compressMultipleFilenames", "FIO_compressFilename_srcFile"), ("FIO_decompressMultipleFilenames", "FIO_decompressSrcFile")):
+        f = prog.fn(name)
+        per = f.call_roots(stage)
+        res.check(len(per) >= 2, R, name + ":stages", f.loc, "%d per-source stage calls" % len(per), "%s has %d calls of %s" % (name, len(per), stage))
+        hit = cond_edges(f, lambda c: is_call(c, "FIO_checkFilenameCollisions"), "true")
+        clear = cond_edges(f, lambda c: is_call(c, "FIO_checkFilenameCollisions"), "false")
+        before = [e for e in clear if any(t in f.flow([(e[1], 0)]) for t in per)]
+        gated = [e for e in hit if not any(t in f.flow([(e[1], 0)]) for t in per)]
+        rm_side = flag_edges(f, "removeSrcFile", "true")
+        on_rm = bool(hit) and all(f.must_pass(via_edges=rm_side, targets=[(e[0], len(f.blocks[e[0]]["el"]))]) for e in hit) if rm_side else False
+        res.check(bool(before) and len(gated) == len(hit) and bool(hit), R, name + ":verdict-before-first-source", f.loc,
+                  "the collision verdict is tested before the per-source stage and its positive edge never reaches it",
+                  "%s does not refuse colliding names of a flat output directory before it processes them: `zstd --rm --output-dir-flat out d1/x d2/x` "
+                  "exits 0, out/x.zst holds d2/x only and both sources are deleted" % name)
+        res.check(on_rm or (bool(hit) and not rm_side), R, name + ":refusal-is-for-rm", f.loc, "the refusal is taken on the --rm side (or unconditionally)",
+                  "%s: the collision refusal no longer depends on removeSrcFile in the way the rule knows" % name)
+    g = prog.fn("FIO_checkFilenameCollisions")
+    verdicts = [r for b, i, r in g.returns() if r.get("e") is not None and const_val(strip_casts(g.resolve_x(r["e"]))) is None]
+    res.check(bool(verdicts), R, "FIO_checkFilenameCollisions:returns-its-verdict", g.loc, "%d computed return(s)" % len(verdicts),
+              "FIO_checkFilenameCollisions returns constants only: the callers' refusal can never be taken")
+    res.need(R, 7)
+
+
 def run(tier):
     res = Result("C19", tier)
     tus, info = extract(["programs", "common", "compress", "decompress"])
@@ -477,6 +506,7 @@ def run(tier):
     frames_end_on_empty_input(prog, res)
     pass_through_only_at_file_start(prog, res)
     shared_destination_on_failure(prog, res)
+    flat_directory_collisions(prog, res)
     return res.finish(
         explanation="Order-of-effects rules on the CFG of the CLI's file pipeline: the source is removed only on the path "
                     "where --rm is set, the destination stage returned 0 (work, clearHandler, close with its result "
